@@ -486,7 +486,8 @@ pub fn explore_program(
     while !frontier.is_empty() {
         let next: Mutex<Vec<Vec<usize>>> = Mutex::new(Vec::new());
         par_for_each(std::mem::take(&mut frontier), threads, &stop, |_, prefix| {
-            if deadline.expired() {
+            if deadline.expired() || (executions.load(Ordering::Relaxed) % 64 == 0 && crate::util::open_fds() > 15_000) {
+                // time cap, or too many files pinned by indeterminate-write poisoning
                 stop.store(true, Ordering::Relaxed);
                 return;
             }
